@@ -152,6 +152,9 @@ let eval inp obs =
   | "MS" :: mode :: rest ->
     (* ONE MetricStrategy object, the metric function changes between calls.
        mode p: MetricStrategy over the plain function: every call must use the CURRENT table.
+       mode g<size>: a new MetricFnCache(fn,size) at every T; within a generation the function is fixed, so
+               the cached strategy must choose exactly as the plain one: maximal w.r.t. the current table,
+               for every capacity and any number of distinct ids.
        mode c: over a MetricFnCache (size 128, fewer ids than that): the cache's contract is "first value
                seen"; the strategy must be maximal w.r.t. the values the cache hands out, which the driver
                tracks as an oracle table (first table value at the time an id was first asked for). *)
@@ -168,6 +171,8 @@ let eval inp obs =
         let opts = ids () in
         let cur = assoc_metric !table in
         let metric =
+          (* mode g<size>: a fresh cache per generation (T): memo(f) = f (C19_memo_run_is_f), so the
+             verdict and the model use the CURRENT table, whatever the capacity *)
           if mode = "c" then begin
             (* ids are asked for in list order; remember the first value handed out *)
             List.iter (fun x -> let k = tok_of_n x in
